@@ -105,6 +105,7 @@ def run(tier, seed):
     ut = [(sp, dict(o, unit_time=u, absence=list(ab), max_time=o["max_time"] * u)) for sp, o in linked[:: (9 if tier == "quick" else 3)] for u, ab in ((2, (1, 3)), (2, (3,)), (3, (1, 2, 4)))]
     col.merge(stepcheck.explore(ut, MONS, 0, 0, seed=seed))
     col.merge(stepcheck.explore(F.scale_items(("TSLACK", "FIFO")), MONS, 0, 0, seed=seed))  # medium-sized models (10-14 tasks / workers / machines), long absence lists
+    col.merge(stepcheck.explore(F.extra_items(("TSLACK", "FIFO"), calendars=True), MONS, 0, 0, seed=seed))  # other ways of building the object graph; continuations under a revised calendar
     meta = {
         "level": "model_checking",
         "rule": "every workflow on 3 tasks (thorough: also 4) with each pair i<j unlinked or linked FS/SS/FF/SF x work vectors (incl. zero-work milestone tasks, manual and automatic) x team layouts x task rules "
